@@ -1,7 +1,7 @@
 (** Functions the correspondence check of C07 evaluates (checks/c07.py): the Gallina
-    validator on an object listing built by the driver, the same on one inventory
-    document, and the classifier of the known finding. *)
-From Rocfl Require Import Base.Bytes Model.Json Model.JsonValue Model.Validate Model.KnownC07.
+    validator on an object listing built by the driver and the same on one inventory
+    document. *)
+From Rocfl Require Import Base.Bytes Model.Json Model.JsonValue Model.Validate.
 Open Scope N_scope.
 
 (** error codes of the object-level validator (verdict = the list is empty) *)
@@ -21,6 +21,3 @@ Definition g_reparse (s : bytes) : bool :=
   | Some j => match parse_json (print_json j) with Some j' => jv_eqb j j' | None => false end
   | None => true
   end.
-
-(** known finding: some borrowed position of some inventory of the object is spelled with an escape *)
-Definition g_known_escape (invs : list bytes) : bool := existsb c07_escaped_string invs.
